@@ -50,6 +50,11 @@ Proj(q) == SelectSeq(q, LAMBDA m : Class(m) \in Classes \/ Class(m) = "other")
 Count(q, m) == Cardinality({i \in DOMAIN q : q[i] = m})
 BagEq(a, b) == Len(a) = Len(b) /\ \A m \in Rng(a) : Count(a, m) = Count(b, m)
 
+SubBagOf(b, a) == \A m \in Rng(b) : Count(b, m) <= Count(a, m)
+\* a reading session with a tiny queue may still lose messages of a step that
+\* produces several at once (the router never waits for it): it receives a sub-bag
+SmallQueue(s) == s \in DOMAIN sess' /\ sess'[s].cap < 8
+
 \* orders the properties state within one step (C18): m1 must precede m2
 MetaOrder(m1, m2) ==
   /\ m1.k = "EVENT" /\ m2.k = "EVENT" /\ m1.y = m2.y /\ m1.y # 0
@@ -82,12 +87,16 @@ ProjFor(s, q) ==
 \* color = "tainted": what they receive is not observed (havoc confined to them)
 Tainted(s) == s \in DOMAIN sess' /\ sess'[s].attrs.color = "tainted"
 
+\* a peer the specification does not know as a session (its join was refused, or
+\* overtaken by a shutdown) may be told ABORT and have its transport closed at any time
+Stranger(s, r) == s \notin DOMAIN sess' /\ \A m \in Rng(LoggedFor(r, s)) : m.k \in {"ABORT", "CLOSED", "CHALLENGE"}
+
 Matches(o, r) ==
-  LET names == {s \in DOMAIN o \cup {r.out[i].s : i \in DOMAIN r.out} : ~Tainted(s)} IN
+  LET names == {s \in DOMAIN o \cup {r.out[i].s : i \in DOMAIN r.out} : ~Tainted(s) /\ ~Stranger(s, r)} IN
   \A s \in names :
      LET a == ProjFor(s, SpecFor(o, s))
          b == ProjFor(s, LoggedFor(r, s))
-     IN /\ BagEq(a, b)
+     IN /\ IF SmallQueue(s) THEN SubBagOf(b, a) ELSE BagEq(a, b)
         /\ NoInversion(b)
 
 Check(o, r) ==
@@ -152,7 +161,9 @@ ApplyAllowed(i, b) ==
     [] i.op = "inverror" -> Live(i.s) /\ Commit(InvErrorFx(Cur, i.s, i.id, i.o.err, i.tag))
     [] i.op = "leave"    -> Live(i.s) /\ Commit(LeaveFx(Cur, i.s, i.how, ""))
     [] i.op = "advance"  -> Commit(AdvanceFx(Cur, i.ms))
-    [] i.op = "rmrealm"  -> Commit(CloseRealmFx(Cur))
+    [] i.op = "stall"    -> Live(i.s) /\ Commit(StallFx(Cur, i.s))
+    [] i.op = "resume"   -> Live(i.s) /\ Commit(ResumeFx(Cur, i.s))
+    [] i.op \in {"rmrealm", "closerouter"} -> Commit([CloseRealmFx(Cur) EXCEPT !.cfg.closed = TRUE])
     [] i.op = "hostile"  -> Commit(HostileFx(Cur, b.closed))
     [] i.op = "metacall" ->
          /\ Live(i.s)
@@ -182,14 +193,98 @@ SnapOf(r, key) == LET hit == {i \in DOMAIN r.snap : r.snap[i].k = key} IN
                   IF hit = {} THEN -1 ELSE r.snap[CHOOSE i \in hit : TRUE].n
 SnapOK(r) ==
   r.in.op = "snap" =>
+   IF cfg.closed THEN r.gor = 0            \* after Close no goroutine of the router is left (C06)
+   ELSE
     /\ SnapOf(r, "unavailable") = -1
     /\ SnapOf(r, "realm.clients") = Cardinality(Joined(Cur))
     /\ (Joined(Cur) = {} /\ DOMAIN calls = {}) =>
           /\ \A i \in DOMAIN r.snap : r.snap[i].n = 0
           /\ r.gor = 0
 
+\* C06: closing the router / removing the realm, possibly while an input is in flight.
+\* The sessions end concurrently and what a concurrent input still achieves is the
+\* scheduler's choice, so the other outputs of the step are not predicted; required
+\* is what the property states:
+\* the call returned, and every attached session was told GOODBYE
+\* wamp.close.system_shutdown or had its transport closed (nothing after that).
+ToldShutdown(q) == \E j \in DOMAIN q : q[j].k = "CLOSED" \/ (q[j].k = "GOODBYE" /\ q[j].e = SystemShutdown)
+TrShutdown ==
+  /\ IsEvent("step")
+  /\ LET r == TraceLog[l] IN
+       /\ r.in.op \in {"closerouter", "rmrealm"}
+       /\ r.ret
+       /\ \A s \in Joined(Cur) : ToldShutdown(LoggedFor(r, s)) /\ NoInversion(LoggedFor(r, s))
+       /\ Commit([CloseRealmFx(Cur) EXCEPT !.cfg.closed = TRUE, !.em = <<>>])
+
+\* after the realm is closed nobody can join it any more: an attach attempt ends
+\* with an error or ABORT, never with WELCOME
+TrJoinClosed ==
+  /\ IsEvent("step")
+  /\ LET r == TraceLog[l] IN
+       /\ r.in.op = "join" /\ cfg.closed
+       /\ \A i \in DOMAIN r.out : \A j \in DOMAIN r.out[i].m : r.out[i].m[j].k \in {"ABORT", "CLOSED"}
+       /\ Commit(Cur)
+
+\* --------------------------------------------------------------------------
+\* C07 / C08: a burst - several sessions send their programs concurrently.
+\* The scheduler decides the interleaving; every possible outcome must satisfy
+\* the per-peer orders of C08, and for bursts of publications (which do not
+\* change the routing tables) every reading session must have received exactly
+\* the events Core.tla predicts, in full, at once (C07).
+\* ids chosen during the burst are not compared (no order of the publications is assumed)
+Blur(m) == m
+
+\* the orders C08 states, over what one session received (q), given what it held before
+OrdOK(q, heldSubs, heldRegs) ==
+  /\ \A i, j \in DOMAIN q : i < j =>
+        \* events of one publisher on one topic via one subscription: publication order
+        /\ (q[i].k = "EVENT" /\ q[j].k = "EVENT" /\ q[i].a = q[j].a /\ q[i].y = q[j].y /\ q[i].y # 0 /\ q[i].v = q[j].v)
+              => q[i].x < q[j].x
+        \* calls of one caller arrive at the callee in call order
+        /\ (q[i].k = "INVOCATION" /\ q[j].k = "INVOCATION" /\ q[i].y = q[j].y /\ q[i].y # 0)
+              => q[i].x < q[j].x
+        \* progressive results in yield order, nothing after the final one
+        /\ (q[i].k = "RESULT" /\ q[j].k = "RESULT" /\ q[i].req = q[j].req)
+              => (<<"progress", "true">> \in q[i].d /\ q[i].x < q[j].x)
+  /\ \A i \in DOMAIN q :
+        \* an EVENT only while the subscription is held: after SUBSCRIBED, not after UNSUBSCRIBED
+        /\ (q[i].k = "EVENT" /\ ~IsWampURI(q[i].v)) =>
+              LET ctl == {h \in 1..(i-1) : (q[h].k = "SUBSCRIBED" /\ q[h].a = q[i].a) \/ (q[h].k = "UNSUBSCRIBED" /\ q[h].y = q[i].a)}
+              IN IF ctl = {} THEN q[i].a \in heldSubs
+                 ELSE q[CHOOSE h \in ctl : \A h2 \in ctl : h2 <= h].k = "SUBSCRIBED"
+        /\ q[i].k = "INVOCATION" =>
+              LET ctl == {h \in 1..(i-1) : (q[h].k = "REGISTERED" /\ q[h].a = q[i].a) \/ (q[h].k = "UNREGISTERED" /\ q[h].y = q[i].a)}
+              IN IF ctl = {} THEN q[i].a \in heldRegs
+                 ELSE q[CHOOSE h \in ctl : \A h2 \in ctl : h2 <= h].k = "REGISTERED"
+
+HeldSubs(s) == {subs[k].id : k \in {kk \in DOMAIN subs : s \in subs[kk].members}}
+HeldRegs(s) == {regs[k].id : k \in {kk \in DOMAIN regs : s \in Rng(regs[kk].callees)}}
+
+TrBurst ==
+  /\ IsEvent("step")
+  /\ LET r == TraceLog[l] IN
+       /\ r.in.op = "burst"
+       /\ now' = r.now
+       /\ \A s \in DOMAIN sess : OrdOK(LoggedFor(r, s), HeldSubs(s), HeldRegs(s))
+       /\ IF r.in.how = "pub"
+          THEN LET S1 == PubAllFx(Cur, FlatProg(r.in.prog, 1))
+                   o  == Deliver(Settle(S1))
+               IN /\ Commit(S1)
+                  /\ Explain \/ \A s \in DOMAIN o :
+                        LET a == [i \in DOMAIN o[s] |-> Blur(Canon(o[s][i]))]
+                            q == LoggedFor(r, s)
+                            b == [i \in DOMAIN q |-> Blur(q[i])]
+                        IN IF s \in DOMAIN sess /\ sess[s].stalled THEN b = <<>>       \* a session that does not read gets nothing now
+                           ELSE IF SmallQueue(s) THEN SubBagOf(Proj(b), Proj(a))       \* tiny queue: may lose part of a burst
+                           ELSE BagEq(Proj(a), Proj(b))                                \* everybody else: complete (C07)
+          ELSE \* mixed burst: only the orders are decided; the scenario ends here
+               /\ Commit(Cur)
+               /\ (l + 1 > Len(TraceLog) \/ TraceLog[l + 1].ev = "reset")
+
 TrStep == /\ IsEvent("step")
           /\ LET r == TraceLog[l] IN
+               /\ r.in.op \notin {"closerouter", "rmrealm", "burst"}
+               /\ ~(r.in.op = "join" /\ cfg.closed)
                /\ Apply(r.in, r.bind)
                /\ "snap" \notin Classes \/ SnapOK(r)
                   \/ (Explain /\ PrintT(<<"MISMATCH", ToJson([line |-> l, scn |-> r.scn, snapshot |-> r.snap, gor |-> r.gor,
@@ -199,7 +294,7 @@ TrStep == /\ IsEvent("step")
                /\ Check(out', r)
 
 TraceInit == l = 1 /\ InitWith(InitCfg)
-TraceNext == TrReset \/ TrStep
+TraceNext == TrReset \/ TrStep \/ TrShutdown \/ TrJoinClosed \/ TrBurst
 TraceSpec == TraceInit /\ [][TraceNext]_tvars
 
 \* accepted iff every line was consumed (no silent steps: one state per line)
